@@ -551,31 +551,30 @@ func ruleGroupBookkeeping(c *eng.Ctx) {
 		}
 		// every subscriber of the deleted stream contributes its other streams to the rebalance set: nothing between dropping
 		// its assignments and collecting its streams may skip the collection (its load count changed, whatever it held)
-		for _, rs := range eng.CallsIn(fn, "server.consumer.removeStreamAssignments") {
-			var outerNext ssa.Instruction
-			eng.Instrs(fn, func(in ssa.Instruction) {
-				if nx, isN := in.(*ssa.Next); isN {
-					if _, isRange := nx.Iter.(*ssa.Range); !isRange && outerNext == nil {
-						outerNext = in
-					}
-				}
-			})
-			isInner := func(x ssa.Instruction) bool {
-				r, isR := x.(*ssa.Range)
-				return isR && eng.LoadNamed("streams", nil)(r.X)
+		// (the collection may share the loop that drops the assignments, or be a loop of its own over the same subscribers:
+		// what matters is that no iteration of the loop that collects skips the collection)
+		nCollect := 0
+		eng.Instrs(fn, func(in ssa.Instruction) {
+			r, isR := in.(*ssa.Range)
+			if !isR || !eng.LoadNamed("streams", nil)(r.X) {
+				return
 			}
-			// back to the loop header (any Phi-headed block that dominates the call) without ranging over subscriber.streams
-			hdr := rs.(ssa.Instruction).Block()
+			hdr := in.Block()
 			for hdr != nil && !isLoopHeader(hdr) {
 				hdr = hdr.Idom()
 			}
-			if hdr != nil {
-				q := &eng.PathQuery{Fn: fn, FromAfter: []ssa.Instruction{rs.(ssa.Instruction)}, Target: func(x ssa.Instruction) bool { return x.Block() == hdr && x == hdr.Instrs[0] }, CutInstr: isInner}
-				if wq := q.Find(); wq != nil {
-					okReb = false
-				}
+			if hdr == nil || len(hdr.Instrs) == 0 {
+				return
 			}
-			_ = outerNext
+			nCollect++
+			first := hdr.Instrs[0]
+			q := &eng.PathQuery{Fn: fn, FromAfter: []ssa.Instruction{first}, Target: func(x ssa.Instruction) bool { return x == first }, CutInstr: func(x ssa.Instruction) bool { return x == in }}
+			if wq := q.Find(); wq != nil {
+				okReb = false
+			}
+		})
+		if nCollect == 0 {
+			okReb = false
 		}
 		c.Check(okSub && w == nil && okReb, "a deleted stream leaves subscriptions, assignments and heaps, and the other streams are rebalanced", p.Pos(fn.Pos()), "per subscriber: delete(streams, stream), removeStreamAssignments(stream); delete(c.subscribers, stream); then rebalance the affected streams in sorted order", "StreamDeleted leaves the deleted stream in a subscription set, an assignment map or the subscriber table, or does not rebalance the streams whose load counts changed")
 	}
